@@ -43,6 +43,10 @@ def strategy(mod, t, cfg, feats):
     return gen.values(mod, t, cfg)
 
 
+def boundary_cases(mod, t):
+    return gen.boundary_values(mod, t)
+
+
 def value_of(x):
     return x
 
